@@ -1,6 +1,7 @@
 // C03 (view level, constant shapes, symbolic element values): every rearranging view has NumPy's shape and, at every index, NumPy's element.
 // The expected element is written from NumPy's definition in terms of the SOURCE array's own operator().
 #include "cview.hpp"
+#define HV_ID "C03.view.has_value"
 #include "nmtools/array/view/flip.hpp"
 #include "nmtools/array/view/squeeze.hpp"
 #include "nmtools/array/view/atleast_nd.hpp"
@@ -15,85 +16,85 @@
 
 constexpr size_t Z = 0;
 // ---- flip
-void ob_c03g_flip_none(const carr<2,3,2>& a)
-{ auto v = nm::unwrap(view::flip(a, nm::None)); EXPECT_VIEW3("C03.view.flip.shape", "C03.view.flip.all_axes_reversed", v, 2,3,2, a(1-i, 2-j, 1-k), 0); }
-void ob_c03g_flip_axis1(const carr<2,3,2>& a)
-{ auto v = nm::unwrap(view::flip(a, 1)); EXPECT_VIEW3("C03.view.flip.shape", "C03.view.flip.only_the_named_axis_is_reversed", v, 2,3,2, a(i, 2-j, k), 1); }
-void ob_c03g_flip_axis_m1(const carr<2,3,2>& a)
-{ auto v = nm::unwrap(view::flip(a, -1)); EXPECT_VIEW3("C03.view.flip.shape", "C03.view.flip.only_the_named_axis_is_reversed", v, 2,3,2, a(i, j, 1-k), 2); }
-void ob_c03g_flip_axis_m3(const carr<2,3,2>& a)
-{ auto v = nm::unwrap(view::flip(a, -3)); EXPECT_VIEW3("C03.view.flip.shape", "C03.view.flip.only_the_named_axis_is_reversed", v, 2,3,2, a(1-i, j, k), 3); }
-void ob_c03g_flip_axes02(const carr<2,3,2>& a)
-{ auto v = nm::unwrap(view::flip(a, std::array<int,2>{0,2})); EXPECT_VIEW3("C03.view.flip.shape", "C03.view.flip.axis_list", v, 2,3,2, a(1-i, j, 1-k), 4); }
-void ob_c03g_flip_axes_neg(const carr<2,3,2>& a)
-{ auto v = nm::unwrap(view::flip(a, std::array<int,2>{-2,0})); EXPECT_VIEW3("C03.view.flip.shape", "C03.view.flip.axis_list", v, 2,3,2, a(1-i, 2-j, k), 5); }
-void ob_c03g_flip_twice(const carr<2,3,2>& a)
-{ auto f = nm::unwrap(view::flip(a, 1)); auto v = nm::unwrap(view::flip(f, 1)); EXPECT_VIEW3("C03.view.flip.shape", "C03.view.flip.twice_restores", v, 2,3,2, a(i, j, k), 6); }
-void ob_c03g_flipud_lr(const carr<2,3>& a)
-{
-    { auto v = nm::unwrap(view::flipud(a)); EXPECT_VIEW2("C03.view.flip.shape", "C03.view.flipud", v, 2,3, a(1-i, j), 7); }
-    { auto v = nm::unwrap(view::fliplr(a)); EXPECT_VIEW2("C03.view.flip.shape", "C03.view.fliplr", v, 2,3, a(i, 2-j), 8); }
+void ob_c03g_flip_none(const ARR<2,3,2>& a)
+{ PIN(a, 2,3,2); VIEW(v, view::flip(a, nm::None)); EXPECT_VIEW3("C03.view.flip.shape", "C03.view.flip.all_axes_reversed", v, 2,3,2, a(1-i, 2-j, 1-k), 0); }
+void ob_c03g_flip_axis1(const ARR<2,3,2>& a)
+{ PIN(a, 2,3,2); VIEW(v, view::flip(a, 1)); EXPECT_VIEW3("C03.view.flip.shape", "C03.view.flip.only_the_named_axis_is_reversed", v, 2,3,2, a(i, 2-j, k), 1); }
+void ob_c03g_flip_axis_m1(const ARR<2,3,2>& a)
+{ PIN(a, 2,3,2); VIEW(v, view::flip(a, -1)); EXPECT_VIEW3("C03.view.flip.shape", "C03.view.flip.only_the_named_axis_is_reversed", v, 2,3,2, a(i, j, 1-k), 2); }
+void ob_c03g_flip_axis_m3(const ARR<2,3,2>& a)
+{ PIN(a, 2,3,2); VIEW(v, view::flip(a, -3)); EXPECT_VIEW3("C03.view.flip.shape", "C03.view.flip.only_the_named_axis_is_reversed", v, 2,3,2, a(1-i, j, k), 3); }
+void ob_c03g_flip_axes02(const ARR<2,3,2>& a)
+{ PIN(a, 2,3,2); VIEW(v, view::flip(a, std::array<int,2>{0,2})); EXPECT_VIEW3("C03.view.flip.shape", "C03.view.flip.axis_list", v, 2,3,2, a(1-i, j, 1-k), 4); }
+void ob_c03g_flip_axes_neg(const ARR<2,3,2>& a)
+{ PIN(a, 2,3,2); VIEW(v, view::flip(a, std::array<int,2>{-2,0})); EXPECT_VIEW3("C03.view.flip.shape", "C03.view.flip.axis_list", v, 2,3,2, a(1-i, 2-j, k), 5); }
+void ob_c03g_flip_twice(const ARR<2,3,2>& a)
+{ PIN(a, 2,3,2); VIEW(f, view::flip(a, 1)); VIEW(v, view::flip(f, 1)); EXPECT_VIEW3("C03.view.flip.shape", "C03.view.flip.twice_restores", v, 2,3,2, a(i, j, k), 6); }
+void ob_c03g_flipud_lr(const ARR<2,3>& a)
+{ PIN(a, 2,3);
+    { VIEW(v, view::flipud(a)); EXPECT_VIEW2("C03.view.flip.shape", "C03.view.flipud", v, 2,3, a(1-i, j), 7); }
+    { VIEW(v, view::fliplr(a)); EXPECT_VIEW2("C03.view.flip.shape", "C03.view.fliplr", v, 2,3, a(i, 2-j), 8); }
 }
 // ---- squeeze
-void ob_c03g_squeeze_131(const carr<1,3,1>& a)
-{ auto v = nm::unwrap(view::squeeze(a)); EXPECT_VIEW1("C03.view.squeeze.shape", "C03.view.squeeze.element", v, 3, a(Z, i, Z), 0); }
-void ob_c03g_squeeze_212(const carr<2,1,2>& a)
-{ auto v = nm::unwrap(view::squeeze(a)); EXPECT_VIEW2("C03.view.squeeze.shape", "C03.view.squeeze.element", v, 2,2, a(i, Z, j), 1); }
-void ob_c03g_squeeze_23(const carr<2,3>& a)
-{ auto v = nm::unwrap(view::squeeze(a)); EXPECT_VIEW2("C03.view.squeeze.shape", "C03.view.squeeze.nothing_to_remove", v, 2,3, a(i, j), 2); }
+void ob_c03g_squeeze_131(const ARR<1,3,1>& a)
+{ PIN(a, 1,3,1); VIEW(v, view::squeeze(a)); EXPECT_VIEW1("C03.view.squeeze.shape", "C03.view.squeeze.element", v, 3, a(Z, i, Z), 0); }
+void ob_c03g_squeeze_212(const ARR<2,1,2>& a)
+{ PIN(a, 2,1,2); VIEW(v, view::squeeze(a)); EXPECT_VIEW2("C03.view.squeeze.shape", "C03.view.squeeze.element", v, 2,2, a(i, Z, j), 1); }
+void ob_c03g_squeeze_23(const ARR<2,3>& a)
+{ PIN(a, 2,3); VIEW(v, view::squeeze(a)); EXPECT_VIEW2("C03.view.squeeze.shape", "C03.view.squeeze.nothing_to_remove", v, 2,3, a(i, j), 2); }
 // ---- atleast_nd
-void ob_c03g_atleast(const carr<3>& a, const carr<2,3>& b)
-{
-    { auto v = nm::unwrap(view::atleast_nd(a, meta::ct_v<3>)); EXPECT_VIEW3("C03.view.atleast_nd.shape", "C03.view.atleast_nd.element", v, 1,1,3, a(k), 0); }
-    { auto v = nm::unwrap(view::atleast_2d(a)); EXPECT_VIEW2("C03.view.atleast_nd.shape", "C03.view.atleast_nd.element", v, 1,3, a(j), 1); }
-    { auto v = nm::unwrap(view::atleast_1d(b)); EXPECT_VIEW2("C03.view.atleast_nd.shape", "C03.view.atleast_nd.already_enough_axes", v, 2,3, b(i,j), 2); }
-    { auto v = nm::unwrap(view::atleast_nd(b, meta::ct_v<3>)); EXPECT_VIEW3("C03.view.atleast_nd.shape", "C03.view.atleast_nd.element", v, 1,2,3, b(j,k), 3); }
+void ob_c03g_atleast(const ARR<3>& a, const ARR<2,3>& b)
+{ PIN(a, 3); PIN(b, 2,3);
+    { VIEW(v, view::atleast_nd(a, meta::ct_v<3>)); EXPECT_VIEW3("C03.view.atleast_nd.shape", "C03.view.atleast_nd.element", v, 1,1,3, a(k), 0); }
+    { VIEW(v, view::atleast_2d(a)); EXPECT_VIEW2("C03.view.atleast_nd.shape", "C03.view.atleast_nd.element", v, 1,3, a(j), 1); }
+    { VIEW(v, view::atleast_1d(b)); EXPECT_VIEW2("C03.view.atleast_nd.shape", "C03.view.atleast_nd.already_enough_axes", v, 2,3, b(i,j), 2); }
+    { VIEW(v, view::atleast_nd(b, meta::ct_v<3>)); EXPECT_VIEW3("C03.view.atleast_nd.shape", "C03.view.atleast_nd.element", v, 1,2,3, b(j,k), 3); }
 }
 // ---- reshape / flatten keep C order
-void ob_c03g_reshape(const carr<2,3,2>& a)
-{
-    { auto v = nm::unwrap(view::reshape(a, cshape<3,4>{})); EXPECT_VIEW2("C03.view.reshape.shape", "C03.view.reshape.c_order", v, 3,4, a((i*4+j)/6, ((i*4+j)/2)%3, (i*4+j)%2), 0); }
-    { auto v = nm::unwrap(view::reshape(a, std::array<int,2>{4,3})); EXPECT_VIEW2("C03.view.reshape.shape", "C03.view.reshape.c_order", v, 4,3, a((i*3+j)/6, ((i*3+j)/2)%3, (i*3+j)%2), 1); }
-    { auto v = nm::unwrap(view::flatten(a)); EXPECT_VIEW1("C03.view.flatten.shape", "C03.view.flatten.c_order", v, 12, a(i/6, (i/2)%3, i%2), 2); }
+void ob_c03g_reshape(const ARR<2,3,2>& a)
+{ PIN(a, 2,3,2);
+    { VIEW(v, view::reshape(a, cshape<3,4>{})); EXPECT_VIEW2("C03.view.reshape.shape", "C03.view.reshape.c_order", v, 3,4, a((i*4+j)/6, ((i*4+j)/2)%3, (i*4+j)%2), 0); }
+    { VIEW(v, view::reshape(a, std::array<int,2>{4,3})); EXPECT_VIEW2("C03.view.reshape.shape", "C03.view.reshape.c_order", v, 4,3, a((i*3+j)/6, ((i*3+j)/2)%3, (i*3+j)%2), 1); }
+    { VIEW(v, view::flatten(a)); EXPECT_VIEW1("C03.view.flatten.shape", "C03.view.flatten.c_order", v, 12, a(i/6, (i/2)%3, i%2), 2); }
 }
-void ob_c03g_reshape_minus1(const carr<2,3,2>& a)
-{
-    { auto v = nm::unwrap(view::reshape(a, std::array<int,2>{-1,4})); EXPECT_VIEW2("C03.view.reshape.inferred_extent_shape", "C03.view.reshape.c_order", v, 3,4, a((i*4+j)/6, ((i*4+j)/2)%3, (i*4+j)%2), 3); }
-    { auto v = nm::unwrap(view::reshape(a, std::array<int,3>{2,-1,3})); EXPECT_VIEW3("C03.view.reshape.inferred_extent_shape", "C03.view.reshape.c_order", v, 2,2,3, a((i*6+j*3+k)/6, ((i*6+j*3+k)/2)%3, (i*6+j*3+k)%2), 4); }
+void ob_c03g_reshape_minus1(const ARR<2,3,2>& a)
+{ PIN(a, 2,3,2);
+    { VIEW(v, view::reshape(a, std::array<int,2>{-1,4})); EXPECT_VIEW2("C03.view.reshape.inferred_extent_shape", "C03.view.reshape.c_order", v, 3,4, a((i*4+j)/6, ((i*4+j)/2)%3, (i*4+j)%2), 3); }
+    { VIEW(v, view::reshape(a, std::array<int,3>{2,-1,3})); EXPECT_VIEW3("C03.view.reshape.inferred_extent_shape", "C03.view.reshape.c_order", v, 2,2,3, a((i*6+j*3+k)/6, ((i*6+j*3+k)/2)%3, (i*6+j*3+k)%2), 4); }
 }
 // ---- transpose / moveaxis / swapaxes
-void ob_c03g_transpose(const carr<2,3,4>& a)
-{
-    { auto v = nm::unwrap(view::transpose(a)); EXPECT_VIEW3("C03.view.transpose.shape", "C03.view.transpose.default_reverses", v, 4,3,2, a(k, j, i), 0); }
-    { auto v = nm::unwrap(view::transpose(a, std::array<int,3>{1,2,0})); EXPECT_VIEW3("C03.view.transpose.shape", "C03.view.transpose.out_axis_n_is_source_axis_axes_n", v, 3,4,2, a(k, i, j), 1); }
-    { auto v = nm::unwrap(view::transpose(a, nmtools_tuple{meta::ct_v<2>, meta::ct_v<0>, meta::ct_v<1>})); EXPECT_VIEW3("C03.view.transpose.shape", "C03.view.transpose.out_axis_n_is_source_axis_axes_n", v, 4,2,3, a(j, k, i), 2); }
+void ob_c03g_transpose(const ARR<2,3,4>& a)
+{ PIN(a, 2,3,4);
+    { VIEW(v, view::transpose(a)); EXPECT_VIEW3("C03.view.transpose.shape", "C03.view.transpose.default_reverses", v, 4,3,2, a(k, j, i), 0); }
+    { VIEW(v, view::transpose(a, std::array<int,3>{1,2,0})); EXPECT_VIEW3("C03.view.transpose.shape", "C03.view.transpose.out_axis_n_is_source_axis_axes_n", v, 3,4,2, a(k, i, j), 1); }
+    { VIEW(v, view::transpose(a, nmtools_tuple{meta::ct_v<2>, meta::ct_v<0>, meta::ct_v<1>})); EXPECT_VIEW3("C03.view.transpose.shape", "C03.view.transpose.out_axis_n_is_source_axis_axes_n", v, 4,2,3, a(j, k, i), 2); }
 }
-void ob_c03g_transpose_inverse(const carr<2,3,4>& a)
-{
-    auto t = nm::unwrap(view::transpose(a, std::array<int,3>{1,2,0}));
-    auto v = nm::unwrap(view::transpose(t, std::array<int,3>{2,0,1}));
+void ob_c03g_transpose_inverse(const ARR<2,3,4>& a)
+{ PIN(a, 2,3,4);
+    VIEW(t, view::transpose(a, std::array<int,3>{1,2,0}));
+    VIEW(v, view::transpose(t, std::array<int,3>{2,0,1}));
     EXPECT_VIEW3("C03.view.transpose.shape", "C03.view.transpose.inverse_permutation_restores", v, 2,3,4, a(i, j, k), 3);
 }
-void ob_c03g_moveaxis(const carr<2,3,4>& a)
-{
-    { auto v = nm::unwrap(view::moveaxis(a, 0, -1)); EXPECT_VIEW3("C03.view.moveaxis.shape", "C03.view.moveaxis.element", v, 3,4,2, a(k, i, j), 0); }
-    { auto v = nm::unwrap(view::moveaxis(a, -1, 0)); EXPECT_VIEW3("C03.view.moveaxis.shape", "C03.view.moveaxis.element", v, 4,2,3, a(j, k, i), 1); }
-    { auto v = nm::unwrap(view::moveaxis(a, 1, 1)); EXPECT_VIEW3("C03.view.moveaxis.shape", "C03.view.moveaxis.same_position_is_identity", v, 2,3,4, a(i, j, k), 2); }
+void ob_c03g_moveaxis(const ARR<2,3,4>& a)
+{ PIN(a, 2,3,4);
+    { VIEW(v, view::moveaxis(a, 0, -1)); EXPECT_VIEW3("C03.view.moveaxis.shape", "C03.view.moveaxis.element", v, 3,4,2, a(k, i, j), 0); }
+    { VIEW(v, view::moveaxis(a, -1, 0)); EXPECT_VIEW3("C03.view.moveaxis.shape", "C03.view.moveaxis.element", v, 4,2,3, a(j, k, i), 1); }
+    { VIEW(v, view::moveaxis(a, 1, 1)); EXPECT_VIEW3("C03.view.moveaxis.shape", "C03.view.moveaxis.same_position_is_identity", v, 2,3,4, a(i, j, k), 2); }
 }
-void ob_c03g_swapaxes(const carr<2,3,4>& a)
-{
-    { auto v = nm::unwrap(view::swapaxes(a, 0, 2)); EXPECT_VIEW3("C03.view.swapaxes.shape", "C03.view.swapaxes.element", v, 4,3,2, a(k, j, i), 0); }
-    { auto v = nm::unwrap(view::swapaxes(a, -1, 1)); EXPECT_VIEW3("C03.view.swapaxes.shape", "C03.view.swapaxes.element", v, 2,4,3, a(i, k, j), 1); }
+void ob_c03g_swapaxes(const ARR<2,3,4>& a)
+{ PIN(a, 2,3,4);
+    { VIEW(v, view::swapaxes(a, 0, 2)); EXPECT_VIEW3("C03.view.swapaxes.shape", "C03.view.swapaxes.element", v, 4,3,2, a(k, j, i), 0); }
+    { VIEW(v, view::swapaxes(a, -1, 1)); EXPECT_VIEW3("C03.view.swapaxes.shape", "C03.view.swapaxes.element", v, 2,4,3, a(i, k, j), 1); }
 }
 // ---- expand_dims
-void ob_c03g_expand_dims(const carr<2,3>& a)
-{
-    { auto v = nm::unwrap(view::expand_dims(a, 1)); EXPECT_VIEW3("C03.view.expand_dims.shape", "C03.view.expand_dims.element", v, 2,1,3, a(i, k), 0); }
-    { auto v = nm::unwrap(view::expand_dims(a, -1)); EXPECT_VIEW3("C03.view.expand_dims.shape", "C03.view.expand_dims.element", v, 2,3,1, a(i, j), 1); }
-    { auto v = nm::unwrap(view::expand_dims(a, std::array<int,2>{0,2})); EXPECT_VIEW4("C03.view.expand_dims.shape", "C03.view.expand_dims.element", v, 1,2,1,3, a(j, l), 2); }
+void ob_c03g_expand_dims(const ARR<2,3>& a)
+{ PIN(a, 2,3);
+    { VIEW(v, view::expand_dims(a, 1)); EXPECT_VIEW3("C03.view.expand_dims.shape", "C03.view.expand_dims.element", v, 2,1,3, a(i, k), 0); }
+    { VIEW(v, view::expand_dims(a, -1)); EXPECT_VIEW3("C03.view.expand_dims.shape", "C03.view.expand_dims.element", v, 2,3,1, a(i, j), 1); }
+    { VIEW(v, view::expand_dims(a, std::array<int,2>{0,2})); EXPECT_VIEW4("C03.view.expand_dims.shape", "C03.view.expand_dims.element", v, 1,2,1,3, a(j, l), 2); }
 }
-void ob_c03g_negctl(const carr<2,3,4>& a)
-{
-    auto v = nm::unwrap(view::transpose(a, std::array<int,3>{1,2,0}));
+void ob_c03g_negctl(const ARR<2,3,4>& a)
+{ PIN(a, 2,3,4);
+    VIEW(v, view::transpose(a, std::array<int,3>{1,2,0}));
     NEGCTL("C03.NEG.transpose_uses_the_inverse_permutation", (long)v(0,1,1) == a(1,1,0), 0);
 }
